@@ -384,7 +384,15 @@ def run_one(entry, evidence_dir):
     res = {"id": mid, "kind": kind, "props": props, "rule": rule, "file": file}
     try:
         shutil.copytree(os.path.join(REPO, "indi"), os.path.join(d, "indi"))
-        if file.startswith("*seed:"):
+        if file.startswith("*refactoring:"):
+            # an independently written behaviour-preserving refactoring kept under /verif/refactorings/<id>/patch.diff
+            patch = os.path.join(VERIF, "refactorings", file[13:-1], "patch.diff")
+            pr = subprocess.run(["git", "apply", patch], cwd=d, capture_output=True, text=True)
+            if pr.returncode != 0:
+                res["status"] = "skipped"
+                res["why"] = "refactoring patch does not apply to the current tree: " + pr.stderr.strip()[:200]
+                return res
+        elif file.startswith("*seed:"):
             # an independently seeded change kept under /verif/seeded/<id>/patch.diff (DESIGN.md section 10)
             patch = os.path.join(VERIF, "seeded", file[6:-1], "patch.diff")
             pr = subprocess.run(["git", "apply", patch], cwd=d, capture_output=True, text=True)
@@ -465,10 +473,20 @@ def seed_entries(prop=None):
     return out
 
 
+def refactoring_entries(props):
+    out = []
+    rd = os.path.join(VERIF, "refactorings")
+    for name in sorted(os.listdir(rd)) if os.path.isdir(rd) else []:
+        if os.path.exists(os.path.join(rd, name, "patch.diff")):
+            out.append((f"refactoring-{name}", "preserve", list(props), None, f"*refactoring:{name}*", "", ""))
+    return out
+
+
 def run_for_property(prop: str, jobs: int = 16):
     entries = [e for e in M if prop in e[2]]
     entries = [(e[0], e[1], [prop] if e[1] == "preserve" else e[2], e[3], e[4], e[5], e[6]) for e in entries if e[1] == "preserve" or e[2][0] == prop]
     entries.extend(seed_entries(prop))
+    entries.extend(refactoring_entries([prop]))
     entries.append((f"{prop}-unparse-roundtrip", "preserve", [prop], None, "*unparse*", "", ""))
     entries.append((f"{prop}-rename-locals", "preserve", [prop], None, "*rename-locals*", "", ""))
     entries.append((f"{prop}-invert-ifs", "preserve", [prop], None, "*invert-ifs*", "", ""))
@@ -502,6 +520,7 @@ def main(argv=None):
     sel = set(a.props.split(",")) if a.props else None
     entries = list(M) + seed_entries()
     allprops = [f"C{i:02d}" for i in range(1, 21)]
+    entries.extend(refactoring_entries(allprops))
     entries.append(("all-unparse-roundtrip", "preserve", allprops, None, "*unparse*", "", ""))
     entries.append(("all-rename-locals", "preserve", allprops, None, "*rename-locals*", "", ""))
     entries.append(("all-invert-ifs", "preserve", allprops, None, "*invert-ifs*", "", ""))
